@@ -16,7 +16,7 @@ def spec(tier, seed):
           Harness("c14_ownership_large_n", obligation="one bucket / one partition, cluster sizes up to 1024 (covers N >= 256): node i owns the partition iff i < min(rf, N) computed in wide arithmetic",
                   encodes=enc, bounds=f"N <= 1024, rf <= {P['RMAX']}", timeout_s=1500),
           Harness("topo_vacuity_witness", expect_fail=True, obligation="twin", timeout_s=300)]
-    u = Unit("topo", _topo.generate, hs, jobs=4, workers=3)
+    u = Unit("topo", _topo.generate, hs, jobs=4, workers=3, quick_extra=2)
 
     def native_replay(rp, workroot):
         from engine.core import replay_bin
